@@ -84,6 +84,9 @@ def parse_msgs(toks, i, n):
     return out, i
 
 
+MS_NS = 10 ** 6
+
+
 class History:
     """Events of one case, with the virtual clock (ms precision is enough: ns kept)."""
 
@@ -657,6 +660,10 @@ def mon_list_args(ops, lines):
             if (size < 0 or bad_tok) and rt[1] in ("0", "5"):
                 return ("C13-bad-argument-accepted: %s with page size %d and token %r answered status %s at op %d; a negative "
                         "size or an undecodable token is rejected with INVALID_ARGUMENT" % (ot[0], size, unhx(ot[3]), rt[1], i))
+            if rt[1] == "0" and rt[-1] != "-" and not token_decodable(rt[-1]):
+                return ("C13-issued-token-undecodable: %s at op %d answered with the next page token %r, which is not a decodable "
+                        "token (standard base64 of 8 bytes): following it is rejected and the walk ends before the "
+                        "collection does" % (ot[0], i, unhx(rt[-1])))
     return None
 
 
@@ -830,6 +837,20 @@ def mon_abandon(ops, lines):
                         "Pull blocked on it is still waiting (op %d)" % i)
             if ot[0] in ("PUB", "ADV"):
                 break
+    # an abandoned Pull acknowledges nothing: whatever it leased or not, every message published to the topic is still
+    # held by the subscription (leased or queued) at every later STATS, until something is acknowledged or deleted
+    if ops[x].split(" ")[1] == "PULL":
+        sub = ops[x].split(" ")[5]
+        published = 0
+        for i, (o, r) in enumerate(zip(ops, lines)):
+            ot, rt = o.split(" "), r.split(" ")
+            if ot[0] in ("PUB", "PUBN") and rt[1:2] == ["0"]:
+                published += int(ot[2])
+            elif ot[0] in ("ACK", "DS", "DT", "MOD", "SS") and i > x:
+                break
+            elif i > x and ot[:2] == ["STATS", sub] and rt[1:2] == ["0"] and int(rt[2]) + int(rt[3]) != published:
+                return ("C01-lost: %d messages were published to the topic of %r and none acknowledged, yet after the abandoned "
+                        "Pull the subscription holds %d (%s leased, %s queued) at op %d" % (published, unhx(sub), int(rt[2]) + int(rt[3]), rt[2], rt[3], i))
     # an abandoned Acknowledge of many deliveries acknowledges all of them or none
     if ops[x].split(" ")[1] == "ACKN":
         n = int(ops[x].split(" ")[-1])
@@ -993,6 +1014,133 @@ def mon_no_hang(ops, lines):
     return None
 
 
+def mon_pull_complete(ops, lines):
+    """C08 / C15 on cases whose only consumer is a synchronous unary Pull that is always read to the end: what a Pull
+    leases it returns - the ack ids seen are 1, 2, 3, … without a gap, and the STATS right after a Pull shows as many
+    outstanding deliveries as that Pull returned (nothing had been outstanding before it) - and then mon_order."""
+    h = History(ops, lines)
+    if h.bad:
+        return "C08-" + h.bad
+    seen = set()
+    for i, ev in enumerate(h.events):
+        if ev["op"][0] == "PULL" and ev["code"] == "0":
+            for d in ev["msgs"]:
+                if is_u64(d.ack):
+                    seen.add(ack_value(d.ack))
+    if seen:
+        gap = next(a for a in range(1, max(seen) + 2) if a not in seen)
+        if gap < max(seen):
+            return ("C08-leased-not-returned: the Pulls of this case returned ack ids up to %d but never %d: a delivery was "
+                    "leased that no response carried (its message comes back only after the ack deadline, behind messages "
+                    "published later)" % (max(seen), gap))
+    for i, (o, r) in enumerate(zip(ops, lines)):
+        ot, rt = o.split(" "), r.split(" ")
+        if ot[0] == "PULL" and rt[:2] == ["PULL", "0"] and i >= 1 and i + 1 < len(lines):
+            before, after = lines[i - 1].split(" "), lines[i + 1].split(" ")
+            if ops[i - 1].startswith("STATS ") and ops[i + 1].startswith("STATS ") and before[1:3] == ["0", "0"] and after[1] == "0":
+                if int(after[2]) != int(rt[2]):
+                    return ("C15-leased-not-returned: the Pull at op %d returned %s messages, yet %s deliveries are "
+                            "outstanding right after it (none were before)" % (i, rt[2], after[2]))
+    return mon_order(ops, lines)
+
+
+def mon_stats_lease(ops, lines):
+    """C04 read off STATS in cases whose only consumer is a synchronous Pull (every delivery is seen): a delivery whose
+    promised lease ended more than 250 ms ago is no longer outstanding - the count STATS reports is at most the number
+    of deliveries seen whose lease (never extended here) may still run; then the deadline reading."""
+    h = History(ops, lines)
+    if h.bad:
+        return "C04-" + h.bad
+    seen = []       # deliveries so far
+    gone = set()    # ack ids acknowledged or modified
+    for ev in h.events:
+        k = ev["op"][0]
+        if k == "PULL" and ev["code"] == "0":
+            seen += ev["msgs"]
+        elif k in ("ACK", "MOD") and ev["code"] == "0":
+            gone |= set(ev["ids"])
+        elif k == "STATS" and ev["code"] == "0":
+            live = [d for d in seen if d.sub == ev["op"][1] and d.ack not in gone and d.t + (d.dl or 10) * 10 ** 9 + 250 * MS_NS > ev["t"]]
+            if int(ev["res"][2]) > len(live):
+                late = [d for d in seen if d.sub == ev["op"][1] and d.ack not in gone and d not in live]
+                return ("C04-not-requeued-at-deadline: STATS at %d ns shows %s outstanding deliveries, but only %d of the deliveries "
+                        "made can still be within their lease; e.g. message %r was delivered at %d ns with a %d s deadline (op %d)"
+                        % (ev["t"], ev["res"][2], len(live), unhx(late[0].mid) if late else b"?", late[0].t if late else 0,
+                           (late[0].dl or 10) if late else 10, ev["i"]))
+    return mon_deadline(ops, lines)
+
+
+def mon_topic_balance(ops, lines):
+    """C10 per topic name, on cases with one topic name: (successful creates) - (successful deletes) is 0 or 1 after
+    every op and says what Get / a further create / Publish / Delete answer next (XDT counts as delete, create,
+    delete with the outcomes it reports; its second delete overlaps the other two and may also fail)."""
+    bal = 0
+    for i, (o, r) in enumerate(zip(ops, lines)):
+        if r.startswith("!"):
+            return "C10-noanswer: op %d got %s" % (i, r[:60])
+        ot, rt = o.split(" "), r.split(" ")
+        want = None
+        if ot[0] == "CT":
+            want = "0" if bal == 0 else "6"
+            if rt[1] != want:
+                return ("C10-not-linearizable: CreateTopic answered %s at op %d although successful creates minus successful "
+                        "deletes of that name is %d" % (rt[1], i, bal))
+            if rt[1] == "0":
+                bal += 1
+        elif ot[0] == "DT":
+            want = "0" if bal == 1 else "5"
+            if rt[1] != want:
+                return ("C10-not-linearizable: DeleteTopic answered %s at op %d although successful creates minus successful "
+                        "deletes of that name is %d" % (rt[1], i, bal))
+            if rt[1] == "0":
+                bal -= 1
+        elif ot[0] == "XDT":
+            for j, (what, res) in enumerate(zip(("delete", "create", "delete"), rt[1:4])):
+                ok = res == "ok"
+                should = (bal == 1) if what == "delete" else (bal == 0)
+                # the second delete overlaps the first and the create (its holder looked the name up before either):
+                # it may take effect before the create (nothing to delete: error) or after it (deletes the new topic)
+                if j == 2 and not ok:
+                    continue
+                if ok != should:
+                    return ("C10-not-linearizable: the %s inside XDT answered %s at op %d although successful creates minus "
+                            "successful deletes of that name was %d" % (what, res, i, bal))
+                if ok:
+                    bal += 1 if what == "create" else -1
+        elif ot[0] in ("GT", "PUB"):
+            want = "0" if bal == 1 else "5"
+            if rt[1] != want:
+                return ("C10-not-linearizable: %s answered %s at op %d although successful creates minus successful deletes of "
+                        "that name is %d: the topic %s" % (ot[0], rt[1], i, bal, "exists" if bal == 1 else "does not exist"))
+        elif ot[0] == "LT" and rt[1] == "0":
+            if int(rt[2]) != bal:
+                return "C10-not-linearizable: ListTopics shows %s topics at op %d, creates minus deletes is %d" % (rt[2], i, bal)
+    return None
+
+
+def mon_late_ack(ops, lines):
+    """C02 with the clock moving right after Acknowledge has returned: every acknowledge of the LACK op returned OK
+    while its delivery was outstanding (the STATS before it says so), so afterwards nothing is delivered again and
+    nothing is outstanding or queued."""
+    acked = False
+    for i, (o, r) in enumerate(zip(ops, lines)):
+        if r.startswith("!"):
+            return "C02-noanswer: op %d got %s" % (i, r[:60])
+        ot, rt = o.split(" "), r.split(" ")
+        if ot[0] == "LACK":
+            if rt[1] != ot[3]:
+                return "C02-ack-refused: %s of %s acknowledgements of outstanding deliveries returned OK (op %d)" % (rt[1], ot[3], i)
+            prev = lines[i - 1].split(" ")
+            acked = prev[0] == "STATS" and prev[1] == "0" and prev[2] == ot[3]
+        elif acked and ot[0] == "PULL" and rt[1] == "0" and int(rt[2]) > 0:
+            return ("C02-redelivered-after-ack: %s message(s) delivered at op %d although every delivery had been acknowledged "
+                    "(each Acknowledge had returned OK one second before the deadline)" % (rt[2], i))
+        elif acked and ot[0] == "STATS" and rt[1] == "0" and (rt[2] != "0" or rt[3] != "0"):
+            return ("C02-ack-not-final: after every delivery was acknowledged (each call returned OK before the deadline) "
+                    "the subscription shows %s outstanding, %s queued at op %d" % (rt[2], rt[3], i))
+    return None
+
+
 def mon_backed_up(ops, lines):
     """C06 next to a StreamingPull handler suspended at the hand-over of a batch (its last XQ produced a batch and it is
     not polled again - a client that has stopped reading): the reading of mon_wait for the consumers that do wait.
@@ -1005,6 +1153,33 @@ def mon_backed_up(ops, lines):
     if last is None or not last.startswith("XQ batch"):
         return None
     return mon_wait(ops, lines)
+
+
+def mon_push_late_answer(ops, lines):
+    """C14 with the real loop and an endpoint that accepts later than one push interval (within the ack deadline): each
+    message is POSTed exactly once, and once the loop has run its course nothing is outstanding or queued."""
+    npub = 0
+    for i, (o, r) in enumerate(zip(ops, lines)):
+        if r.startswith("!"):
+            return "C14-noanswer: op %d got %s" % (i, r[:60])
+        ot, rt = o.split(" "), r.split(" ")
+        if ot[0] == "PUB" and rt[1] == "0":
+            npub += int(ot[2])
+        if ot[0] == "LOOP":
+            if int(rt[1]) != 1:
+                return "C14-loop-posts: POSTs for %s subscriptions during the loop (expected the one push subscription) (op %d)" % (rt[1], i)
+            count, nids = int(rt[3]), int(rt[4])
+            if nids != npub:
+                return "C14-not-pushed: %d of %d published messages were POSTed by the loop (op %d)" % (nids, npub, i)
+            if count != nids:
+                return ("C14-post-after-accept: %d POSTs for %d messages although the endpoint accepts every POST 700 ms after "
+                        "it arrived, well within the 10 s ack deadline (op %d)" % (count, nids, i))
+        if ot[0] == "STATS" and rt[1] == "0" and (rt[2] != "0" or rt[3] != "0"):
+            return ("C14-accepted-not-acked: every POST was accepted (200, 700 ms after it arrived; ack deadline 10 s), yet "
+                    "%s deliveries are still outstanding and %s messages queued after the loop (op %d)" % (rt[2], rt[3], i))
+        if ot[0] == "PULL" and rt[1] == "0" and rt[2] != "0":
+            return "C14-accepted-not-acked: a message the endpoint had accepted is still delivered to a Pull (op %d)" % i
+    return None
 
 
 def mon_push_delete(ops, lines):
